@@ -265,17 +265,22 @@ theorem format_parse_millis (t : Int) (h0 : t0 ≤ t) (h1 : t ≤ tMax) :
   congr 2
   omega
 
-/-- the statement for all four formats of the property; the HTTP format is not proved (validated by the correspondence
-check and by the harness's oracle on every scanned instant) -/
-def format_parse_full : Prop :=
-  ∀ t, t0 ≤ t → t ≤ tMax →
-    parse (toUTCString .long t) = some (some (t - t % 1000)) ∧ parse (toUTCString .short t) = some (some (t - t % 1000)) ∧
-    parse (toUTCString .http t) = some (some (t - t % 1000)) ∧ parse (toUTCString .full t) = some (some t)
+/-- HTTP (RFC 1123) format `Www, dd Mmm yyyy hh:mm:ss GMT`; uses that the formatter's month names are the keys of the
+parser's month map (`mn_names_ok`, both regenerated from the source) -/
+theorem format_parse_http (t : Int) (h0 : t0 ≤ t) (h1 : t ≤ tMax) :
+    parse (toUTCString .http t) = some (some (t - t % 1000)) := by
+  unfold t0 at h0; unfold tMax at h1
+  exact parse_http_roundtrip t h0 h1
 
-theorem format_parse_partial (t : Int) (h0 : t0 ≤ t) (h1 : t ≤ tMax) :
+/-- G obligation: the month names written by the HTTP formatter are looked up to the right month by the HTTP parser -/
+theorem http_month_tables_agree : ∀ i : Fin 12, lookupMonth (mnNames.getD i.val []) = (i.val : Int) + 1 :=
+  fun i => (mn_names_ok i).2
+
+/-- all four formats of the property, every instant of years 0..9999 -/
+theorem format_parse (t : Int) (h0 : t0 ≤ t) (h1 : t ≤ tMax) :
     parse (toUTCString .long t) = some (some (t - t % 1000)) ∧ parse (toUTCString .short t) = some (some (t - t % 1000)) ∧
-    parse (toUTCString .full t) = some (some t) :=
-  ⟨format_parse_long t h0 h1, format_parse_short t h0 h1, format_parse_millis t h0 h1⟩
+    parse (toUTCString .http t) = some (some (t - t % 1000)) ∧ parse (toUTCString .full t) = some (some t) :=
+  ⟨format_parse_long t h0 h1, format_parse_short t h0 h1, format_parse_http t h0 h1, format_parse_millis t h0 h1⟩
 
 example : toUTCString .full 951868799123 = [50, 48, 48, 48, 45, 48, 50, 45, 50, 57, 84, 50, 51, 58, 53, 57, 58, 53, 57, 46, 49, 50, 51, 90] := by decide
 
